@@ -121,6 +121,11 @@ func (db *DB) Merge() error {
 				if err != nil {
 					return err
 				}
+				// 重写文件的 id 不允许达到未参与 merge 的数据文件 id
+				// 否则加载时两者无法区分, 此时放弃本次 merge (未写入完成标识, 重启时将被忽略)
+				if pos.Fid >= nonMergeFileId {
+					return ErrMergeOutputTooLarge
+				}
 				// merge的过程中顺便将构建索引所需信息写入 Hint 文件中, 用于后续重启时加速构建索引
 				if err := hintFile.WriteHintRecord(logRecord.Key, db.hintPos, pos); err != nil {
 					return err
